@@ -737,7 +737,14 @@ impl Engine for C07 {
                 continue;
             }
             // --- injected file-system faults
-            if let Some(ff) = &r.req.fs_fault {
+            // (a missing TMPDIR is a fault only for an implementation that stages its output
+            // there: if the command did not fail, it is held to the ordinary oracle below)
+            let unnoticed = r.req.fs_fault.as_deref() == Some("tmpdir-missing") && !r.outcome.is_err();
+            if unnoticed {
+                res.stats.fault("fs.tmpdir-missing");
+                res.stats.probe("tmpdir_missing_not_needed_by_the_command");
+            }
+            if let Some(ff) = r.req.fs_fault.as_ref().filter(|_| !unnoticed) {
                 res.stats.fault(&format!("fs.{ff}"));
                 // a full device only fails a write that writes something
                 let nothing_to_write = (ff == "out-dev-full" || ff == "stdout-dev-full") && matches!(g, Outcome::Ok(b) if b.is_empty());
